@@ -6,6 +6,7 @@ CONSTANTS
   Counts = {1, 2, 7, 8, 11, 16, 24, 31, 32}
   Bes = {0, 1}
   NChains = 40
+  Blind = 2
   NSurg = 3
 INIT Init
 NEXT Next
